@@ -366,7 +366,7 @@ PLAN["C14"] = {
              "Half of the rounds contain one or two clients with valid requests that walk away (close their connection) 2-800 ms after sending; no response is owed to them, every other client's response must still be its own, and a follow-up valid request after the round must be answered 200 with its own proof. "
              "(CLI, start-up) 'start' with the keys file behind a FIFO so that loading lasts as long as the harness likes; SIGINT 0.4 s and 1.5 s (thorough also 5 and 60 ms) after process start, then the keys are fed: the process must either end at once (no handler yet) or stop after loading - it must not start serving and stay (positive sign: prover address accepting connections and the process alive 30 s later). "
              "Non-trivial = a cycle with >= 1 request in flight at the stop, a stop issued before the listeners were up, or >= 2 cycles on one address pair; every immediate cycle counts (distinct by construction), rapid cases by SHA-1."),
-    "assumptions": A_COMMON + ["timing is sampled: delays are drawn, the scheduler decides the rest; GOMAXPROCS 2 and 16 are both exercised", "SIGINT before the signal handler is installed is outside the stated domain (readiness wait)"],
+    "assumptions": A_COMMON + ["timing is sampled: delays are drawn, the scheduler decides the rest; GOMAXPROCS 2 and 16 are both exercised", "for the in-flight clauses the CLI runs wait for readiness before SIGINT; a SIGINT during key loading is judged only by 'the stop must not be lost' (dying at once and stopping after the load are both accepted), because the statement does not say where the handler is installed"],
     "technique": "stateful property testing of start/stop histories with drawn delays and in-flight requests; high-volume immediate-stop cycles; CLI under SIGINT",
     "level_text": "Exploration of sampled timings: tens of thousands of immediate start/stop cycles per run (the window the pinned tree's defect needed is hit within the first hundred), dozens of cycles with proofs in flight, CLI runs with SIGINT.",
     "level_note": "schedules are sampled, not enumerated; a failure that kills the process cannot be shrunk and is reported from the trace and the logged history",
